@@ -76,7 +76,7 @@ func decodeParams(p map[string]string) map[string]interface{} {
 
 // yaccParse is how the sql node parses a query (httpd.Handler.getSqlQuery).
 func yaccParse(q string, params map[string]interface{}) (qq *influxql.Query, err error) {
-	if p := vf.Catch(func() {
+	if p := catchW(func() {
 		p := influxql.NewParser(strings.NewReader(q))
 		defer p.Release()
 		if params != nil {
@@ -108,7 +108,7 @@ func yaccSelect(q string, params map[string]interface{}) (*influxql.SelectStatem
 
 // rdParseExpr is the hand-written parser (influxql.ParseExpr) with bound parameters.
 func rdParseExpr(s string, params map[string]interface{}) (e influxql.Expr, err error) {
-	if p := vf.Catch(func() {
+	if p := catchW(func() {
 		p := influxql.NewParser(strings.NewReader(s))
 		defer p.Release()
 		if params != nil {
@@ -325,7 +325,7 @@ func (r *reporter) roundTripExpr(stage string, e influxql.Expr, tc textCase) {
 	c := r.c
 	tc.Stage = stage
 	var s string
-	if p := vf.Catch(func() { s = e.String() }); p != nil {
+	if p := catchW(func() { s = e.String() }); p != nil {
 		r.violation("expr-roundtrip:String-panic", fmt.Sprintf("%s: String() panicked: %v", stage, p), tc)
 		return
 	}
@@ -419,7 +419,7 @@ func (r *reporter) codecCondition(stage string, e influxql.Expr, tc textCase) {
 	var got query.ProcessorOptions
 	var err error
 	var buf []byte
-	if p := vf.Catch(func() {
+	if p := catchW(func() {
 		buf, err = opt.MarshalBinary()
 		if err == nil {
 			err = got.UnmarshalBinary(buf)
@@ -451,7 +451,7 @@ func (r *reporter) codecFields(stage string, fields influxql.Fields, tc textCase
 	var text string
 	var got influxql.Fields
 	var err error
-	if p := vf.Catch(func() {
+	if p := catchW(func() {
 		pb := query.EncodeQuerySchema(&stubCatalog{fields: fields, names: []string{"x"}})
 		text = pb.QueryFields
 		got, err = hybridqp.ParseFields(text)
@@ -567,7 +567,7 @@ func (r *reporter) checkExprText(tc textCase, feats map[string]bool) {
 	if tc.Kind == "cond" {
 		var cond influxql.Expr
 		var cerr error
-		if p := vf.Catch(func() {
+		if p := catchW(func() {
 			valuer := influxql.NowValuer{Now: fixedNow}
 			cond, _, cerr = influxql.ConditionExpr(st2.Condition, &valuer)
 		}); p != nil {
@@ -585,7 +585,7 @@ func (r *reporter) checkExprText(tc textCase, feats map[string]bool) {
 		}
 	} else if len(st2.Fields) == 1 {
 		var red influxql.Expr
-		if p := vf.Catch(func() {
+		if p := catchW(func() {
 			valuer := influxql.NowValuer{Now: fixedNow}
 			red = influxql.Reduce(st2.Fields[0].Expr, &valuer)
 		}); p != nil {
@@ -605,13 +605,13 @@ func (r *reporter) roundTripFields(stage string, fields influxql.Fields, tc text
 	c := r.c
 	tc.Stage = stage
 	var s string
-	if p := vf.Catch(func() { s = fields.String() }); p != nil {
+	if p := catchW(func() { s = fields.String() }); p != nil {
 		r.violation("fields-roundtrip:String-panic", fmt.Sprintf("Fields.String() panicked: %v", p), tc)
 		return
 	}
 	var got influxql.Fields
 	var err error
-	if p := vf.Catch(func() { got, err = hybridqp.ParseFields(s) }); p != nil {
+	if p := catchW(func() { got, err = hybridqp.ParseFields(s) }); p != nil {
 		r.violation("fields-roundtrip:ParseFields-panic", fmt.Sprintf("ParseFields(%q) panicked: %v", clip(s), p), tc)
 		return
 	}
@@ -656,13 +656,13 @@ func (r *reporter) roundTripSource(stage string, src influxql.Source, base canon
 	c := r.c
 	tc.Stage = stage
 	var s string
-	if p := vf.Catch(func() { s = src.String() }); p != nil {
+	if p := catchW(func() { s = src.String() }); p != nil {
 		r.violation("source-roundtrip:String-panic", fmt.Sprintf("%s: String() panicked: %v", stage, p), tc)
 		return
 	}
 	var got influxql.Source
 	var err error
-	if p := vf.Catch(func() {
+	if p := catchW(func() {
 		if len(mk) > 0 {
 			// the real codec of LogicalSubQuery sources
 			var back []influxql.Source
@@ -718,7 +718,7 @@ func (r *reporter) checkSourceText(tc textCase, feats map[string]bool) {
 	c.LogInput(tc)
 	var src influxql.Source
 	var err error
-	if p := vf.Catch(func() { src, err = influxql.ParseSource(tc.Text) }); p != nil {
+	if p := catchW(func() { src, err = influxql.ParseSource(tc.Text) }); p != nil {
 		r.violation("source-roundtrip:ParseSource-panic", fmt.Sprintf("ParseSource(%q) panicked: %v", clip(tc.Text), p), tc)
 		return
 	}
@@ -785,7 +785,7 @@ func explainLegacy(mk func(fill, alias bool) (influxql.Node, func(string) (influ
 			return ""
 		}
 		ok := false
-		vf.Catch(func() {
+		catchW(func() {
 			got, err := parse(n.String())
 			o := canonOpts{selectSyntax: true, stripParens: true}
 			ok = err == nil && canon(n, o) == canon(got, o)
@@ -805,7 +805,7 @@ func (r *reporter) roundTripSort(stage string, sf influxql.SortFields, tc textCa
 	s := sf.String()
 	var got influxql.SortFields
 	var err error
-	if p := vf.Catch(func() { got, err = influxql.ParseSortFields(s) }); p != nil {
+	if p := catchW(func() { got, err = influxql.ParseSortFields(s) }); p != nil {
 		r.violation("sort-roundtrip:ParseSortFields-panic", fmt.Sprintf("%s: ParseSortFields(%q) panicked: %v", stage, clip(s), p), tc)
 		return
 	}
@@ -824,7 +824,7 @@ func (r *reporter) checkSortText(tc textCase, feats map[string]bool) {
 	c.LogInput(tc)
 	var sf influxql.SortFields
 	var err error
-	if p := vf.Catch(func() { sf, err = influxql.ParseSortFields(tc.Text) }); p != nil {
+	if p := catchW(func() { sf, err = influxql.ParseSortFields(tc.Text) }); p != nil {
 		r.violation("sort-roundtrip:ParseSortFields-panic", fmt.Sprintf("ParseSortFields(%q) panicked: %v", clip(tc.Text), p), tc)
 		return
 	}
@@ -849,13 +849,13 @@ func (r *reporter) roundTripStmt(stage string, st influxql.Statement, base canon
 	c := r.c
 	tc.Stage = stage
 	var s string
-	if p := vf.Catch(func() { s = st.String() }); p != nil {
+	if p := catchW(func() { s = st.String() }); p != nil {
 		r.violation("stmt-roundtrip:String-panic", fmt.Sprintf("%s: String() panicked: %v", stage, p), tc)
 		return
 	}
 	var got influxql.Statement
 	var err error
-	if p := vf.Catch(func() { got, err = influxql.ParseStatement(s) }); p != nil {
+	if p := catchW(func() { got, err = influxql.ParseStatement(s) }); p != nil {
 		r.violation("stmt-roundtrip:ParseStatement-panic", fmt.Sprintf("%s: ParseStatement(%q) panicked: %v", stage, clip(s), p), tc)
 		return
 	}
@@ -888,7 +888,7 @@ func (r *reporter) checkStmtText(tc textCase, feats map[string]bool) {
 	c.LogInput(tc)
 	var st influxql.Statement
 	var err error
-	if p := vf.Catch(func() { st, err = influxql.ParseStatement(tc.Text) }); p != nil {
+	if p := catchW(func() { st, err = influxql.ParseStatement(tc.Text) }); p != nil {
 		r.violation("stmt-roundtrip:ParseStatement-panic", fmt.Sprintf("ParseStatement(%q) panicked: %v", clip(tc.Text), p), tc)
 		return
 	}
@@ -934,7 +934,7 @@ var requiredSet = func() map[string]bool {
 }()
 
 func shipCondition(e influxql.Expr) (got influxql.Expr, err error) {
-	if p := vf.Catch(func() {
+	if p := catchW(func() {
 		opt := query.ProcessorOptions{Condition: e}
 		var buf []byte
 		if buf, err = opt.MarshalBinary(); err != nil {
@@ -951,7 +951,7 @@ func shipCondition(e influxql.Expr) (got influxql.Expr, err error) {
 }
 
 func shipField(e influxql.Expr) (got influxql.Expr, err error) {
-	if p := vf.Catch(func() {
+	if p := catchW(func() {
 		pb := query.EncodeQuerySchema(&stubCatalog{fields: influxql.Fields{&influxql.Field{Expr: e}}, names: []string{"x"}})
 		var fs influxql.Fields
 		if fs, err = hybridqp.ParseFields(pb.QueryFields); err == nil && len(fs) == 1 {
